@@ -22,7 +22,8 @@ def run(ctx):
     # different (source, sequence) pairs whose concatenations coincide: every sequence to the all-histories depth again
     # (the variant {"seq": true} above, replayed like the base configuration)
     # what the stream remembers is longer than the abstract state: EVERY sequence of 12 offers that climbs by one or steps two back
-    c.graph_leg(ctx, "Watermark.tla", "watermark", "Gen_Watermark_climb.cfg", {}, 0, 13, 13, histbudget=3000000)
+    c.graph_leg(ctx, "Watermark.tla", "watermark", "Gen_Watermark_climb.cfg", {}, 0, 13, 13, histbudget=3000000,
+                 variants=[{"unit": 1001, "seq": True, "_allhist": 13}])
     if not q:   # three choices per offer (one above / equal to / two below the largest timestamp), every sequence of 10 offers
         c.graph_leg(ctx, "Watermark.tla", "watermark", "Gen_Watermark_climb3.cfg", {}, 0, 11, 11, histbudget=3000000)
     ctx.cov["exhaustive"] = True
